@@ -276,7 +276,9 @@ func checkPanicInvariants(c *Ctx, r *Report) {
 	if fi := need(c, r, "C14.b", "core/validators.getDiagForRetSig"); fi != nil {
 		viol := "no `case 0:` arm returning an error diagnostic"
 		var ss []string
-		for _, sw := range w.switches(fi, func(tag ast.Expr) bool { return strings.HasPrefix(exprString(tag), "len()") || strings.Contains(exprString(tag), "len") }) {
+		for _, sw := range w.switches(fi, func(tag ast.Expr) bool {
+			return strings.HasPrefix(exprString(tag), "len()") || strings.Contains(exprString(tag), "len")
+		}) {
 			for _, cc := range sw.Stmt.Body.List {
 				cl := cc.(*ast.CaseClause)
 				for _, l := range cl.List {
